@@ -1,6 +1,8 @@
 package props
 
 import (
+	"os"
+	"strings"
 	"fmt"
 	"go/constant"
 	"go/token"
@@ -68,6 +70,9 @@ func C20(env *Env) {
 	allDom := true
 	for _, b := range fn.Blocks {
 		if ret, ok := b.Instrs[len(b.Instrs)-1].(*ssa.Return); ok {
+			if b == fn.Recover {
+				continue // the path after a recovered panic (a function with defer): not a normal return
+			}
 			if !(w.Block() == b || w.Block().Dominates(b)) {
 				allDom = false
 				r.Fail("C20/FIRST", "attempt-before-return", env.P.Pos(ret.Pos()), "Get can return without having called the wrapped getter at all (e.g. when the deadline has already passed): the first success is then not returned")
@@ -100,10 +105,61 @@ func C20(env *Env) {
 			r.Fail("C20/FIRST", "no-attempt-after-success", env.P.Pos(a.Ret.Pos()), "another attempt is reachable after the successful one")
 		}
 	}
-	// waiting
+	// waiting: the select may live in a helper of the package that Get calls
+	// between attempts (`if !waitForRetry(ctx, delay) { give up }`)
+	var waitCall *ssa.Call // the call of the wait helper in Get, when the select is there
+	selFn := fn
+	if sel == nil {
+		for _, b := range fn.Blocks {
+			for _, in := range b.Instrs {
+				c, ok := in.(*ssa.Call)
+				if !ok {
+					continue
+				}
+				h := c.Call.StaticCallee()
+				if h == nil || h.Pkg != fn.Pkg || h.Blocks == nil {
+					continue
+				}
+				for _, hb := range h.Blocks {
+					for _, hin := range hb.Instrs {
+						if x, ok := hin.(*ssa.Select); ok {
+							if sel != nil {
+								r.Fail("C20/WAIT", "single-select", env.P.Pos(x.Pos()), "more than one select in the retry loop")
+							}
+							sel, selFn, waitCall = x, h, c
+						}
+					}
+				}
+			}
+		}
+	}
 	if sel == nil {
 		r.Fail("C20/WAIT", "blocking-select", where, "the retry loop has no select: failed attempts are not separated by a wait")
 		return
+	}
+	// argOf maps a value of the select's function to the value in Get: a
+	// parameter of the wait helper is the argument at its call
+	argOf := func(v ssa.Value) ssa.Value {
+		if waitCall == nil {
+			return v
+		}
+		for i, p := range selFn.Params {
+			if ssa.Value(p) == v && i < len(waitCall.Call.Args) {
+				return waitCall.Call.Args[i]
+			}
+		}
+		return nil
+	}
+	// the place in Get that waits: the select itself or the call of the helper,
+	// which must pass its select on every path
+	var waitBlock *ssa.BasicBlock = sel.Block()
+	if waitCall != nil {
+		waitBlock = waitCall.Block()
+		for _, hb := range selFn.Blocks {
+			if _, ok := hb.Instrs[len(hb.Instrs)-1].(*ssa.Return); ok && !(sel.Block() == hb || sel.Block().Dominates(hb)) {
+				r.Fail("C20/WAIT", "blocking-select", env.P.Pos(sel.Pos()), "the wait helper can return without passing its select")
+			}
+		}
 	}
 	if !sel.Blocking {
 		r.Fail("C20/WAIT", "blocking-select", env.P.Pos(sel.Pos()), "the select between attempts has a default case: the loop can spin without waiting")
@@ -120,7 +176,7 @@ func C20(env *Env) {
 	r.OK("C20/WAIT", "retry-exists", env.P.Pos(w.Pos()), "the attempt is inside a loop")
 	sep := true
 	for _, lt := range lp.Latches {
-		if !g.Dominates(sel.Block().Index, lt) {
+		if !g.Dominates(waitBlock.Index, lt) {
 			sep = false
 		}
 	}
@@ -136,15 +192,30 @@ func C20(env *Env) {
 			continue
 		}
 		switch c := st.Chan.(type) {
+		case *ssa.UnOp:
+			// <-timer.C of a timer := time.NewTimer(d) created for this wait
+			if fa, ok := c.X.(*ssa.FieldAddr); ok {
+				if k, ok := load.FieldKeyOf(fa.X.Type(), fa.Field); ok && k.Field == "C" && strings.HasSuffix(k.Type, "time.Timer") {
+					if tc, ok := fa.X.(*ssa.Call); ok && calleeName(tc) == "time.NewTimer" {
+						after = tc
+						afterIdx = i
+					}
+				}
+			}
 		case *ssa.Call:
 			if calleeName(c) == "time.After" {
 				after = c
 				afterIdx = i
 			} else if c.Call.IsInvoke() && c.Call.Method.Name() == "Done" {
 				doneIdx = i
-				ctxT := e.Eval(c.Call.Value, e.Root(fn))
+				ctxV := argOf(c.Call.Value)
+				if ctxV == nil {
+					r.Fail("C20/DEADLINE", "context", env.P.Pos(c.Pos()), "the context whose Done channel is awaited is not the one Get created")
+					continue
+				}
+				ctxT := e.Eval(ctxV, e.Root(fn))
 				want := pat.Res("0", pat.Call("context.WithTimeout", pat.Call("context.Background"), pat.Is(fieldT(n, "Timeout"))))
-				cv, _ := c.Call.Value.(*ssa.Extract)
+				cv, _ := ctxV.(*ssa.Extract)
 				inLoop := cv == nil || blockInCycle(cv.Tuple.(ssa.Instruction).Block())
 				if want(ctxT, pat.Bind{}) && !inLoop {
 					r.OK("C20/DEADLINE", "context", env.P.Pos(c.Pos()), "ctx = context.WithTimeout(context.Background(), n.Timeout), created once before the loop")
@@ -156,14 +227,17 @@ func C20(env *Env) {
 	}
 	if after == nil {
 		r.Fail("C20/WAIT", "timer-case", env.P.Pos(sel.Pos()), "no case of the select receives from time.After: the wait between attempts is unbounded or absent")
+	} else if d := argOf(after.Call.Args[0]); d == nil {
+		r.Fail("C20/WAIT", "delay-capped", env.P.Pos(after.Pos()), "the duration awaited is not computed by Get")
 	} else {
-		env.c20Delay(fn, after, lp, g, n)
+		env.c20Delay(e, fn, d, env.P.Pos(after.Pos()), lp, g, n)
 	}
 	if doneIdx < 0 {
 		r.Fail("C20/DEADLINE", "done-case", env.P.Pos(sel.Pos()), "no case of the select receives from ctx.Done(): a getter that keeps failing is retried forever")
 	} else {
-		// the Done case leads to a failing return: find the test index == doneIdx
-		okFail := false
+		// the Done case leads only to failing returns (in a wait helper: to `return
+		// false`, whose false edge in Get leads only to failing returns)
+		var doneBlock *ssa.BasicBlock
 		for _, ref := range *sel.Referrers() {
 			ex, ok := ref.(*ssa.Extract)
 			if !ok || ex.Index != 0 {
@@ -175,17 +249,74 @@ func C20(env *Env) {
 					continue
 				}
 				c, ok := bo.Y.(*ssa.Const)
-				if !ok || c.Value == nil || constant.Compare(c.Value, token.NEQ, constant.MakeInt64(int64(doneIdx))) {
+				if !ok || c.Value == nil {
 					continue
 				}
+				k, _ := constant.Int64Val(c.Value)
 				for _, r3 := range *bo.Referrers() {
-					if iff, ok := r3.(*ssa.If); ok {
-						tb := iff.Block().Succs[0]
-						if ret, ok := tb.Instrs[len(tb.Instrs)-1].(*ssa.Return); ok {
-							if e.RetIsFail(ret) {
+					iff, ok := r3.(*ssa.If)
+					if !ok {
+						continue
+					}
+					if int(k) == doneIdx {
+						doneBlock = iff.Block().Succs[0]
+					} else if len(sel.States) == 2 && doneBlock == nil {
+						doneBlock = iff.Block().Succs[1]
+					}
+				}
+			}
+		}
+		failLike := func(f *ssa.Function, from *ssa.BasicBlock, stop *ssa.BasicBlock, inHelper bool) bool {
+			seen := map[*ssa.BasicBlock]bool{}
+			stack := []*ssa.BasicBlock{from}
+			any := false
+			for len(stack) > 0 {
+				b := stack[len(stack)-1]
+				stack = stack[:len(stack)-1]
+				if seen[b] || b == stop {
+					continue
+				}
+				seen[b] = true
+				if ret, ok := b.Instrs[len(b.Instrs)-1].(*ssa.Return); ok {
+					any = true
+					switch {
+					case inHelper:
+						c, ok := ret.Results[len(ret.Results)-1].(*ssa.Const)
+						if !ok || constBoolVal(c) {
+							return false
+						}
+					case e.RetIsFail(ret):
+					default:
+						c, ok := ret.Results[len(ret.Results)-1].(*ssa.Call)
+						if !(ok && c.Call.IsInvoke() && c.Call.Method.Name() == "Err") {
+							return false
+						}
+					}
+				}
+				stack = append(stack, b.Succs...)
+			}
+			return any
+		}
+		okFail := false
+		if doneBlock != nil {
+			if waitCall == nil {
+				okFail = failLike(fn, doneBlock, sel.Block(), false)
+			} else if failLike(selFn, doneBlock, sel.Block(), true) {
+				// in Get: the edge taken when the helper said "give up"
+				for _, ref := range *waitCall.Referrers() {
+					var cond ssa.Value = waitCall
+					neg := false
+					if u, ok := ref.(*ssa.UnOp); ok && u.Op == token.NOT {
+						cond, neg = u, true
+					}
+					for _, r3 := range *cond.Referrers() {
+						if iff, ok := r3.(*ssa.If); ok {
+							giveUp := iff.Block().Succs[1]
+							if neg {
+								giveUp = iff.Block().Succs[0]
+							}
+							if failLike(fn, giveUp, waitCall.Block(), false) {
 								okFail = true
-							} else if c, ok := ret.Results[len(ret.Results)-1].(*ssa.Call); ok && c.Call.IsInvoke() && c.Call.Method.Name() == "Err" && c.Call.Value == sel.States[doneIdx].Chan.(*ssa.Call).Call.Value {
-								okFail = true // ctx.Err() is non-nil once ctx.Done() is closed (context contract)
 							}
 						}
 					}
@@ -225,10 +356,8 @@ func blockReachesBlock(a, b *ssa.BasicBlock) bool {
 }
 
 // c20Delay: d passed to time.After is min(2*delay, n.MaxRetryDelay) and is the loop-carried delay.
-func (env *Env) c20Delay(fn *ssa.Function, after *ssa.Call, lp *flow.Loop, g *flow.Graph, n *flow.Term) {
+func (env *Env) c20Delay(e *flow.Engine, fn *ssa.Function, d ssa.Value, where string, lp *flow.Loop, g *flow.Graph, n *flow.Term) {
 	r := env.R
-	d := after.Call.Args[0]
-	where := env.P.Pos(after.Pos())
 	isMax := func(v ssa.Value) bool {
 		u, ok := v.(*ssa.UnOp)
 		if !ok || u.Op != token.MUL {
@@ -242,6 +371,7 @@ func (env *Env) c20Delay(fn *ssa.Function, after *ssa.Call, lp *flow.Loop, g *fl
 		return ok && k.Field == "MaxRetryDelay"
 	}
 	var doubled ssa.Value
+	var helperCarried *ssa.Phi
 	okMin := false
 	switch x := d.(type) {
 	case *ssa.Phi:
@@ -281,6 +411,61 @@ func (env *Env) c20Delay(fn *ssa.Function, after *ssa.Call, lp *flow.Loop, g *fl
 			}
 		}
 	case *ssa.Call:
+		if h := x.Call.StaticCallee(); h != nil && h.Pkg == fn.Pkg && h.Blocks != nil {
+			// the capped doubling computed by a helper of the package from the
+			// loop-carried delay: decided on the helper's result term
+			var prev *ssa.Phi
+			for _, a := range x.Call.Args {
+				if ph, ok := a.(*ssa.Phi); ok {
+					prev = ph
+				}
+			}
+			if prev != nil {
+				pt := e.Eval(prev, e.Root(fn))
+				maxT := pat.Is(fieldT(n, "MaxRetryDelay"))
+				_ = pt
+				// twice the loop-carried delay: p+p, p*2 or p<<1 with p the merged value of
+				// the loop header (its back-edge arm shows as a cycle placeholder)
+				carriedTerm := func(t *flow.Term) bool {
+					t = flow.StripConv(t)
+					return t.Op == flow.OpPhi && t.Contains(func(x *flow.Term) bool { return x.Op == flow.OpUnknown && strings.HasPrefix(x.Name, "cycle:") })
+				}
+				var dbl pat.M = func(t *flow.Term, b pat.Bind) bool {
+					t = flow.StripConv(t)
+					if t.Op != flow.OpBin || len(t.Args) != 2 {
+						return false
+					}
+					switch t.Name {
+					case "+":
+						return flow.Eq(t.Args[0], t.Args[1]) && carriedTerm(t.Args[0])
+					case "*":
+						return (t.Args[0].IsConst("2") && carriedTerm(t.Args[1])) || (t.Args[1].IsConst("2") && carriedTerm(t.Args[0]))
+					case "<<":
+						return t.Args[1].IsConst("1") && carriedTerm(t.Args[0])
+					}
+					return false
+				}
+				dt := flow.StripConv(e.Eval(x, e.Root(fn)))
+				if os.Getenv("TDXLINT_DEBUG") != "" {
+					fmt.Fprintln(os.Stderr, "c20 delay helper term:", dt.String(), "prev:", pt.String())
+				}
+				okShape := false
+				if dt.Op == flow.OpIte {
+					c, a, b := dt.Args[0], dt.Args[1], dt.Args[2]
+					switch {
+					case maxT(a, pat.Bind{}) && dbl(b, pat.Bind{}):
+						// the cap on the true side: the test must be  max < doubled
+						okShape = pat.OneOf(pat.Bin("<", maxT, dbl), pat.Bin("<=", maxT, dbl))(c, pat.Bind{})
+					case dbl(a, pat.Bind{}) && maxT(b, pat.Bind{}):
+						okShape = pat.OneOf(pat.Bin("<", dbl, maxT), pat.Bin("<=", dbl, maxT))(c, pat.Bind{})
+					}
+				}
+				if okShape {
+					okMin = true
+					helperCarried = prev
+				}
+			}
+		}
 		if b, ok := x.Call.Value.(*ssa.Builtin); ok && b.Name() == "min" && len(x.Call.Args) == 2 {
 			if isMax(x.Call.Args[0]) {
 				okMin, doubled = true, x.Call.Args[1]
@@ -295,7 +480,7 @@ func (env *Env) c20Delay(fn *ssa.Function, after *ssa.Call, lp *flow.Loop, g *fl
 	}
 	r.OK("C20/WAIT", "delay-capped", where, "time.After(min(2*delay, n.MaxRetryDelay))")
 	// doubled = delay + delay (or delay * 2) of the loop-carried phi whose back edge is d itself
-	var carried *ssa.Phi
+	carried := helperCarried
 	if bo, ok := doubled.(*ssa.BinOp); ok {
 		switch {
 		case bo.Op == token.ADD && bo.X == bo.Y:
